@@ -7,7 +7,7 @@
    dist/(dist+1e-12) (theorems C11_distance_gradient_factor, C11_leaf_factor). *)
 From Coq Require Import Reals List ZArith Lra Lia.
 From Coquelicot Require Import Coquelicot.
-From MellonV Require Import ALists AKernels AKExpr AListsFacts AProfiles AKernelsThm AGradThm.
+From MellonV Require Import ALists AKernels AKExpr AListsFacts AProfiles ADistThm AGradThm.
 Import ListNotations.
 Open Scope R_scope.
 
